@@ -143,7 +143,7 @@ where
     L: Flat + Length,
 {
     unsafe fn emplace_unchecked(self, bytes: &mut [u8]) -> Result<&mut FlatVec<T, L>, Error> {
-        unsafe { <Empty as Emplacer<FlatVec<T, L>>>::emplace_unchecked(Empty, bytes) }?;
+        // Capacity depends only on the slice length, so check it before the target is touched.
         let vec = unsafe { FlatVec::<T, L>::from_mut_bytes_unchecked(bytes) };
         if vec.capacity() < N {
             return Err(Error {
@@ -151,6 +151,8 @@ where
                 pos: 0,
             });
         }
+        unsafe { <Empty as Emplacer<FlatVec<T, L>>>::emplace_unchecked(Empty, bytes) }?;
+        let vec = unsafe { FlatVec::<T, L>::from_mut_bytes_unchecked(bytes) };
         vec.extend_until_full(self.0);
         Ok(vec)
     }
